@@ -19,7 +19,7 @@ func checkC14(c *checkCtx) int {
 	timeout := 5 * time.Minute
 	soft := "60s"
 	if c.Tier == "thorough" {
-		cases = 160000
+		cases = 600000
 		probeQuota = 400
 		timeout = 60 * time.Minute
 		soft = "40m"
